@@ -7,7 +7,8 @@ func init() {
 		"for links passed with WithLinks whose span context is invalid but which carry attributes or tracestate, and for the relative order of sampler attributes and WithAttributes at start, either documented reading is accepted",
 		"RecordError: position of the synthesized exception.* attributes relative to the caller's attributes is not asserted, only counts, the prefix rule for the caller's attributes and the exception.message value",
 		"End running as the deferred call of a panicking goroutine adds the documented exception event, which is modelled as an ordinary event (event FIFO, per-event attribute cap and dropped count; 2 attributes, 3 with WithStackTrace(true)); whether the panic is continued is not asserted; End inside a deferred closure of a panicking goroutine is an ordinary End",
-		"the caller may pass one attribute slice object to several calls and to spans of two providers: every call is modelled with the key-values the caller built (the library must not alter elements [0:len) of an attribute slice argument; spare capacity is not examined); trace.Link.Attributes slices are never re-used or overwritten by the caller (AddLink keeps the caller's slice on the pinned tree)",
+		"the caller may pass one attribute slice object to several calls and to spans of two providers: every call is modelled with the key-values the caller built (the library must not alter elements [0:len) of an attribute slice argument; spare capacity is not examined); trace.Link.Attributes slices are never overwritten by the caller (AddLink keeps the caller's slice on the pinned tree), but a Link value is used again (added to the sibling span / the same span twice, its Attributes passed to SetAttributes or AddEvent, WithLinks values added to the sibling) and each such call is modelled with the key-values the caller built",
+		"concurrent_twins: the statement is not restricted to one span being worked on at a time; several goroutines each run the sequential model check on their own provider, span and program (limits as WithRawSpanLimits literals), the oracle being the sequential model per goroutine; a fatal runtime error inside the SDK (process crash) counts as a violation",
 		"the limits in force are derived from the documentation of the way they are configured: WithRawSpanLimits as-is; deprecated WithSpanLimits replaces zero / negative fields by the Default…Limit constants' documented values (unlimited value length, 128) whatever the environment says; no option = NewSpanLimits (documented variables, general OTEL_ATTRIBUTE_* ones standing in for unset span-specific ones, blank = unset, not an integer = default; a non-integer span-specific value next to a usable general one is not generated); the later of two span limits options counts",
 	))
 }
